@@ -11,11 +11,15 @@
    Switches: SpawnUnderLock (D19: _resize spawns under the processes management lock -- TRUE after the fix),
    CallbackSubmits (the D6 pattern), UserShutdown (the D18 pattern), RecheckAfterWait (D24: a worker that dies while
    _resize waits for the jobs breaks the pool; without the re-check _resize goes on to spawn workers on the broken
-   executor, which nobody ever stops).  Open findings are exempted through `hit`.                                   *)
+   executor, which nobody ever stops), WakeAfterResize (D27: the manager thread waits on the sentinels of the workers that
+   were registered when its wait() began -- `watched`; a worker spawned by _resize afterwards is only watched once
+   something wakes the manager up; without the wake-up its death goes unnoticed and a later shrink waits forever).
+   Open findings are exempted through `hit`.                                   *)
 EXTENDS Naturals, FiniteSets, Sequences, TLC
 
 CONSTANTS Callers, Size, Pids, MaxTimeout, HasTimeout, CallbackSubmits, UserShutdown, SpawnUnderLock,
           MaxCrash,            \* abrupt deaths of registered workers (the environment)
+          WakeAfterResize,     \* D27: _resize wakes the manager thread up after spawning, so that its wait() covers the new workers
           RecheckAfterWait     \* D24: _resize looks at the broken / shutdown flags again after waiting for the jobs, and
                                \*      get_reusable_executor replaces an executor that became unusable during the resize
 
@@ -26,6 +30,7 @@ variables
   pending = 0, sentinels = 0, shutdownF = FALSE, mgr = "none", callbacks = (IF CallbackSubmits THEN 1 ELSE 0),
   starting = {}, timeouts = 0, got = [c \in Callers |-> 0], done = [c \in Callers |-> FALSE], hit = {},
   gracePassed = {}, broken = FALSE, crashes = 0,
+  watched = {}, wake = FALSE,                 \* the workers whose sentinel the manager's current wait() covers; a pending wake-up
   sawBroken = [c \in Callers |-> FALSE];      \* ghost: the instance was already unusable when this call's wait for the jobs ended
 
 define
@@ -68,6 +73,9 @@ begin
       sentinels := sentinels + (IF k > Size[self] THEN k - Size[self] ELSE 0);
       mgmt := "free";
  r3: await Cardinality(procs) <= maxw \/ broken;           \* polling: only the manager pops workers
+ r3b: \* ... and the flags are looked at once more: nothing is spawned on an instance that broke / was shut down meanwhile
+      if RecheckAfterWait /\ broken then goto crep;
+      elsif RecheckAfterWait /\ shutdownF then goto cret; end if;
  r4: if SpawnUnderLock then await mgmt = "free"; mgmt := self; end if;
  r4s: while NeedSpawn do
         if broken then hit := hit \cup {"D24"}; elsif shutdownF then hit := hit \cup {"D18"}; end if;
@@ -76,6 +84,7 @@ begin
  r4r:   procs := procs \cup starting; starting := {};
       end while;
  r4u: if mgmt = self then mgmt := "free"; end if;
+      if WakeAfterResize then wake := TRUE; end if;
       if RecheckAfterWait /\ broken then goto crep; end if;
  cret: got[self] := eid; exlock := "free";
  \* executor.submit(job): needs the same lock
@@ -85,6 +94,7 @@ begin
  s2:    await mgmt = "free"; mgmt := self;
  s3:    while NeedSpawn do spawnOne(); end while;
         mgr := IF mgr = "none" THEN "run" ELSE mgr; mgmt := "free";
+        wake := TRUE;                                      \* submit() wakes the manager thread up once the workers exist
      end if;
  s4: exlock := "free"; done[self] := TRUE;
 end process;
@@ -100,7 +110,11 @@ end process;
 process manager = "M"
 begin
  m0: while TRUE do
-       either \* a result arrives: the job is done, its done-callback runs in this thread
+       \* wait_result_broken_or_wakeup: the sentinels of the workers registered NOW are what this wait() watches
+       watched := procs;
+ mw:   either \* woken up with nothing else to do: back to a fresh wait()
+         await wake; wake := FALSE;
+       or \* a result arrives: the job is done, its done-callback runs in this thread
          await mgr = "run" /\ pending > 0 /\ (procs \cap alive) # {};
          pending := pending - 1;
          if callbacks > 0 then
@@ -127,7 +141,7 @@ begin
             announced := announced \ {w}; gracePassed := gracePassed \cup {w};
          end with;
        or \* the sentinel of a registered worker that left without a completed handshake: the pool is broken
-         await mgr = "run" /\ (\E w \in procs : w \notin alive);
+         await mgr = "run" /\ (\E w \in procs \cap watched : w \notin alive);
          broken := TRUE; shutdownF := TRUE; alive := alive \ procs; procs := {}; pending := 0; mgr := "done";
        or \* shutdown with nothing pending: post one sentinel per registered worker, then join what is registered
          await mgr = "run" /\ shutdownF /\ pending = 0;
@@ -171,7 +185,7 @@ end algorithm; *)
 \* BEGIN TRANSLATION
 VARIABLES pc, exlock, mgmt, eid, maxw, procs, alive, announced, used, pending, 
           sentinels, shutdownF, mgr, callbacks, starting, timeouts, got, done, 
-          hit, gracePassed, broken, crashes, sawBroken
+          hit, gracePassed, broken, crashes, watched, wake, sawBroken
 
 (* define statement *)
 Fresh == Pids \ used
@@ -182,7 +196,8 @@ VARIABLE k
 
 vars == << pc, exlock, mgmt, eid, maxw, procs, alive, announced, used, 
            pending, sentinels, shutdownF, mgr, callbacks, starting, timeouts, 
-           got, done, hit, gracePassed, broken, crashes, sawBroken, k >>
+           got, done, hit, gracePassed, broken, crashes, watched, wake, 
+           sawBroken, k >>
 
 ProcSet == (Callers) \cup {"S"} \cup {"M"} \cup {"E"} \cup (Pids)
 
@@ -208,6 +223,8 @@ Init == (* Global variables *)
         /\ gracePassed = {}
         /\ broken = FALSE
         /\ crashes = 0
+        /\ watched = {}
+        /\ wake = FALSE
         /\ sawBroken = [c \in Callers |-> FALSE]
         (* Process caller *)
         /\ k = [self \in Callers |-> 0]
@@ -224,7 +241,7 @@ c0(self) == /\ pc[self] = "c0"
             /\ UNCHANGED << mgmt, eid, maxw, procs, alive, announced, used, 
                             pending, sentinels, shutdownF, mgr, callbacks, 
                             starting, timeouts, got, done, hit, gracePassed, 
-                            broken, crashes, sawBroken, k >>
+                            broken, crashes, watched, wake, sawBroken, k >>
 
 c1(self) == /\ pc[self] = "c1"
             /\ IF eid = 0
@@ -248,7 +265,7 @@ c1(self) == /\ pc[self] = "c1"
             /\ UNCHANGED << exlock, mgmt, procs, alive, announced, used, 
                             pending, sentinels, callbacks, starting, timeouts, 
                             got, done, hit, gracePassed, broken, crashes, 
-                            sawBroken, k >>
+                            watched, wake, sawBroken, k >>
 
 crep(self) == /\ pc[self] = "crep"
               /\ shutdownF' = TRUE
@@ -256,7 +273,7 @@ crep(self) == /\ pc[self] = "crep"
               /\ UNCHANGED << exlock, mgmt, eid, maxw, procs, alive, announced, 
                               used, pending, sentinels, mgr, callbacks, 
                               starting, timeouts, got, done, hit, gracePassed, 
-                              broken, crashes, sawBroken, k >>
+                              broken, crashes, watched, wake, sawBroken, k >>
 
 cjoin(self) == /\ pc[self] = "cjoin"
                /\ mgr \in {"none", "done"}
@@ -272,7 +289,7 @@ cjoin(self) == /\ pc[self] = "cjoin"
                /\ pc' = [pc EXCEPT ![self] = "cret"]
                /\ UNCHANGED << exlock, mgmt, alive, announced, used, callbacks, 
                                starting, timeouts, got, done, hit, gracePassed, 
-                               crashes, k >>
+                               crashes, watched, wake, k >>
 
 r1(self) == /\ pc[self] = "r1"
             /\ pending = 0
@@ -280,7 +297,8 @@ r1(self) == /\ pc[self] = "r1"
             /\ UNCHANGED << exlock, mgmt, eid, maxw, procs, alive, announced, 
                             used, pending, sentinels, shutdownF, mgr, 
                             callbacks, starting, timeouts, got, done, hit, 
-                            gracePassed, broken, crashes, sawBroken, k >>
+                            gracePassed, broken, crashes, watched, wake, 
+                            sawBroken, k >>
 
 r1b(self) == /\ pc[self] = "r1b"
              /\ sawBroken' = [sawBroken EXCEPT ![self] = broken]
@@ -292,7 +310,7 @@ r1b(self) == /\ pc[self] = "r1b"
              /\ UNCHANGED << exlock, mgmt, eid, maxw, procs, alive, announced, 
                              used, pending, sentinels, shutdownF, mgr, 
                              callbacks, starting, timeouts, got, done, hit, 
-                             gracePassed, broken, crashes, k >>
+                             gracePassed, broken, crashes, watched, wake, k >>
 
 r2(self) == /\ pc[self] = "r2"
             /\ mgmt = "free"
@@ -301,7 +319,7 @@ r2(self) == /\ pc[self] = "r2"
             /\ UNCHANGED << exlock, eid, maxw, procs, alive, announced, used, 
                             pending, sentinels, shutdownF, mgr, callbacks, 
                             starting, timeouts, got, done, hit, gracePassed, 
-                            broken, crashes, sawBroken, k >>
+                            broken, crashes, watched, wake, sawBroken, k >>
 
 r2b(self) == /\ pc[self] = "r2b"
              /\ k' = [k EXCEPT ![self] = Cardinality(procs \cap alive)]
@@ -312,15 +330,28 @@ r2b(self) == /\ pc[self] = "r2b"
              /\ UNCHANGED << exlock, eid, procs, alive, announced, used, 
                              pending, shutdownF, mgr, callbacks, starting, 
                              timeouts, got, done, hit, gracePassed, broken, 
-                             crashes, sawBroken >>
+                             crashes, watched, wake, sawBroken >>
 
 r3(self) == /\ pc[self] = "r3"
             /\ Cardinality(procs) <= maxw \/ broken
-            /\ pc' = [pc EXCEPT ![self] = "r4"]
+            /\ pc' = [pc EXCEPT ![self] = "r3b"]
             /\ UNCHANGED << exlock, mgmt, eid, maxw, procs, alive, announced, 
                             used, pending, sentinels, shutdownF, mgr, 
                             callbacks, starting, timeouts, got, done, hit, 
-                            gracePassed, broken, crashes, sawBroken, k >>
+                            gracePassed, broken, crashes, watched, wake, 
+                            sawBroken, k >>
+
+r3b(self) == /\ pc[self] = "r3b"
+             /\ IF RecheckAfterWait /\ broken
+                   THEN /\ pc' = [pc EXCEPT ![self] = "crep"]
+                   ELSE /\ IF RecheckAfterWait /\ shutdownF
+                              THEN /\ pc' = [pc EXCEPT ![self] = "cret"]
+                              ELSE /\ pc' = [pc EXCEPT ![self] = "r4"]
+             /\ UNCHANGED << exlock, mgmt, eid, maxw, procs, alive, announced, 
+                             used, pending, sentinels, shutdownF, mgr, 
+                             callbacks, starting, timeouts, got, done, hit, 
+                             gracePassed, broken, crashes, watched, wake, 
+                             sawBroken, k >>
 
 r4(self) == /\ pc[self] = "r4"
             /\ IF SpawnUnderLock
@@ -332,7 +363,7 @@ r4(self) == /\ pc[self] = "r4"
             /\ UNCHANGED << exlock, eid, maxw, procs, alive, announced, used, 
                             pending, sentinels, shutdownF, mgr, callbacks, 
                             starting, timeouts, got, done, hit, gracePassed, 
-                            broken, crashes, sawBroken, k >>
+                            broken, crashes, watched, wake, sawBroken, k >>
 
 r4s(self) == /\ pc[self] = "r4s"
              /\ IF NeedSpawn
@@ -352,7 +383,7 @@ r4s(self) == /\ pc[self] = "r4s"
              /\ UNCHANGED << exlock, mgmt, eid, maxw, procs, announced, 
                              pending, sentinels, shutdownF, mgr, callbacks, 
                              timeouts, got, done, gracePassed, broken, crashes, 
-                             sawBroken, k >>
+                             watched, wake, sawBroken, k >>
 
 r4r(self) == /\ pc[self] = "r4r"
              /\ procs' = (procs \cup starting)
@@ -361,20 +392,24 @@ r4r(self) == /\ pc[self] = "r4r"
              /\ UNCHANGED << exlock, mgmt, eid, maxw, alive, announced, used, 
                              pending, sentinels, shutdownF, mgr, callbacks, 
                              timeouts, got, done, hit, gracePassed, broken, 
-                             crashes, sawBroken, k >>
+                             crashes, watched, wake, sawBroken, k >>
 
 r4u(self) == /\ pc[self] = "r4u"
              /\ IF mgmt = self
                    THEN /\ mgmt' = "free"
                    ELSE /\ TRUE
                         /\ mgmt' = mgmt
+             /\ IF WakeAfterResize
+                   THEN /\ wake' = TRUE
+                   ELSE /\ TRUE
+                        /\ wake' = wake
              /\ IF RecheckAfterWait /\ broken
                    THEN /\ pc' = [pc EXCEPT ![self] = "crep"]
                    ELSE /\ pc' = [pc EXCEPT ![self] = "cret"]
              /\ UNCHANGED << exlock, eid, maxw, procs, alive, announced, used, 
                              pending, sentinels, shutdownF, mgr, callbacks, 
                              starting, timeouts, got, done, hit, gracePassed, 
-                             broken, crashes, sawBroken, k >>
+                             broken, crashes, watched, sawBroken, k >>
 
 cret(self) == /\ pc[self] = "cret"
               /\ got' = [got EXCEPT ![self] = eid]
@@ -383,7 +418,7 @@ cret(self) == /\ pc[self] = "cret"
               /\ UNCHANGED << mgmt, eid, maxw, procs, alive, announced, used, 
                               pending, sentinels, shutdownF, mgr, callbacks, 
                               starting, timeouts, done, hit, gracePassed, 
-                              broken, crashes, sawBroken, k >>
+                              broken, crashes, watched, wake, sawBroken, k >>
 
 s0(self) == /\ pc[self] = "s0"
             /\ exlock = "free"
@@ -392,7 +427,7 @@ s0(self) == /\ pc[self] = "s0"
             /\ UNCHANGED << mgmt, eid, maxw, procs, alive, announced, used, 
                             pending, sentinels, shutdownF, mgr, callbacks, 
                             starting, timeouts, got, done, hit, gracePassed, 
-                            broken, crashes, sawBroken, k >>
+                            broken, crashes, watched, wake, sawBroken, k >>
 
 s1(self) == /\ pc[self] = "s1"
             /\ IF ~shutdownF /\ ~broken
@@ -403,7 +438,7 @@ s1(self) == /\ pc[self] = "s1"
             /\ UNCHANGED << exlock, mgmt, eid, maxw, procs, alive, announced, 
                             used, sentinels, shutdownF, mgr, callbacks, 
                             starting, timeouts, got, done, hit, gracePassed, 
-                            broken, crashes, sawBroken, k >>
+                            broken, crashes, watched, wake, sawBroken, k >>
 
 s2(self) == /\ pc[self] = "s2"
             /\ mgmt = "free"
@@ -412,7 +447,7 @@ s2(self) == /\ pc[self] = "s2"
             /\ UNCHANGED << exlock, eid, maxw, procs, alive, announced, used, 
                             pending, sentinels, shutdownF, mgr, callbacks, 
                             starting, timeouts, got, done, hit, gracePassed, 
-                            broken, crashes, sawBroken, k >>
+                            broken, crashes, watched, wake, sawBroken, k >>
 
 s3(self) == /\ pc[self] = "s3"
             /\ IF NeedSpawn
@@ -421,15 +456,16 @@ s3(self) == /\ pc[self] = "s3"
                             /\ alive' = (alive \cup {p})
                             /\ used' = (used \cup {p})
                        /\ pc' = [pc EXCEPT ![self] = "s3"]
-                       /\ UNCHANGED << mgmt, mgr >>
+                       /\ UNCHANGED << mgmt, mgr, wake >>
                   ELSE /\ mgr' = (IF mgr = "none" THEN "run" ELSE mgr)
                        /\ mgmt' = "free"
+                       /\ wake' = TRUE
                        /\ pc' = [pc EXCEPT ![self] = "s4"]
                        /\ UNCHANGED << procs, alive, used >>
             /\ UNCHANGED << exlock, eid, maxw, announced, pending, sentinels, 
                             shutdownF, callbacks, starting, timeouts, got, 
-                            done, hit, gracePassed, broken, crashes, sawBroken, 
-                            k >>
+                            done, hit, gracePassed, broken, crashes, watched, 
+                            sawBroken, k >>
 
 s4(self) == /\ pc[self] = "s4"
             /\ exlock' = "free"
@@ -438,13 +474,13 @@ s4(self) == /\ pc[self] = "s4"
             /\ UNCHANGED << mgmt, eid, maxw, procs, alive, announced, used, 
                             pending, sentinels, shutdownF, mgr, callbacks, 
                             starting, timeouts, got, hit, gracePassed, broken, 
-                            crashes, sawBroken, k >>
+                            crashes, watched, wake, sawBroken, k >>
 
 caller(self) == c0(self) \/ c1(self) \/ crep(self) \/ cjoin(self)
                    \/ r1(self) \/ r1b(self) \/ r2(self) \/ r2b(self)
-                   \/ r3(self) \/ r4(self) \/ r4s(self) \/ r4r(self)
-                   \/ r4u(self) \/ cret(self) \/ s0(self) \/ s1(self)
-                   \/ s2(self) \/ s3(self) \/ s4(self)
+                   \/ r3(self) \/ r3b(self) \/ r4(self) \/ r4s(self)
+                   \/ r4r(self) \/ r4u(self) \/ cret(self) \/ s0(self)
+                   \/ s1(self) \/ s2(self) \/ s3(self) \/ s4(self)
 
 x0 == /\ pc["S"] = "x0"
       /\ IF UserShutdown
@@ -455,13 +491,25 @@ x0 == /\ pc["S"] = "x0"
       /\ pc' = [pc EXCEPT !["S"] = "Done"]
       /\ UNCHANGED << exlock, mgmt, eid, maxw, procs, alive, announced, used, 
                       pending, sentinels, mgr, callbacks, starting, timeouts, 
-                      got, done, hit, gracePassed, broken, crashes, sawBroken, 
-                      k >>
+                      got, done, hit, gracePassed, broken, crashes, watched, 
+                      wake, sawBroken, k >>
 
 stopper == x0
 
 m0 == /\ pc["M"] = "m0"
-      /\ \/ /\ mgr = "run" /\ pending > 0 /\ (procs \cap alive) # {}
+      /\ watched' = procs
+      /\ pc' = [pc EXCEPT !["M"] = "mw"]
+      /\ UNCHANGED << exlock, mgmt, eid, maxw, procs, alive, announced, used, 
+                      pending, sentinels, shutdownF, mgr, callbacks, starting, 
+                      timeouts, got, done, hit, gracePassed, broken, crashes, 
+                      wake, sawBroken, k >>
+
+mw == /\ pc["M"] = "mw"
+      /\ \/ /\ wake
+            /\ wake' = FALSE
+            /\ pc' = [pc EXCEPT !["M"] = "m0"]
+            /\ UNCHANGED <<procs, alive, announced, pending, sentinels, shutdownF, mgr, callbacks, hit, gracePassed, broken>>
+         \/ /\ mgr = "run" /\ pending > 0 /\ (procs \cap alive) # {}
             /\ pending' = pending - 1
             /\ IF callbacks > 0
                   THEN /\ callbacks' = 0
@@ -469,21 +517,21 @@ m0 == /\ pc["M"] = "m0"
                        /\ pc' = [pc EXCEPT !["M"] = "mcb"]
                   ELSE /\ pc' = [pc EXCEPT !["M"] = "m0"]
                        /\ UNCHANGED << callbacks, hit >>
-            /\ UNCHANGED <<procs, alive, announced, sentinels, shutdownF, mgr, gracePassed, broken>>
+            /\ UNCHANGED <<procs, alive, announced, sentinels, shutdownF, mgr, gracePassed, broken, wake>>
          \/ /\ mgr = "run" /\ mgmt = "free" /\ (announced \cap procs) # {}
             /\ \E w \in announced \cap procs:
                  /\ procs' = procs \ {w}
                  /\ announced' = announced \ {w}
                  /\ alive' = alive \ {w}
             /\ pc' = [pc EXCEPT !["M"] = "mresp"]
-            /\ UNCHANGED <<pending, sentinels, shutdownF, mgr, callbacks, hit, gracePassed, broken>>
+            /\ UNCHANGED <<pending, sentinels, shutdownF, mgr, callbacks, hit, gracePassed, broken, wake>>
          \/ /\ mgr = "run" /\ mgmt = "free" /\ (announced \ procs) # {}
             /\ \E w \in announced \ procs:
                  /\ announced' = announced \ {w}
                  /\ gracePassed' = (gracePassed \cup {w})
             /\ pc' = [pc EXCEPT !["M"] = "m0"]
-            /\ UNCHANGED <<procs, alive, pending, sentinels, shutdownF, mgr, callbacks, hit, broken>>
-         \/ /\ mgr = "run" /\ (\E w \in procs : w \notin alive)
+            /\ UNCHANGED <<procs, alive, pending, sentinels, shutdownF, mgr, callbacks, hit, broken, wake>>
+         \/ /\ mgr = "run" /\ (\E w \in procs \cap watched : w \notin alive)
             /\ broken' = TRUE
             /\ shutdownF' = TRUE
             /\ alive' = alive \ procs
@@ -491,14 +539,14 @@ m0 == /\ pc["M"] = "m0"
             /\ pending' = 0
             /\ mgr' = "done"
             /\ pc' = [pc EXCEPT !["M"] = "m0"]
-            /\ UNCHANGED <<announced, sentinels, callbacks, hit, gracePassed>>
+            /\ UNCHANGED <<announced, sentinels, callbacks, hit, gracePassed, wake>>
          \/ /\ mgr = "run" /\ shutdownF /\ pending = 0
             /\ sentinels' = sentinels + Cardinality(procs)
             /\ mgr' = "final"
             /\ pc' = [pc EXCEPT !["M"] = "mfin"]
-            /\ UNCHANGED <<procs, alive, announced, pending, shutdownF, callbacks, hit, gracePassed, broken>>
+            /\ UNCHANGED <<procs, alive, announced, pending, shutdownF, callbacks, hit, gracePassed, broken, wake>>
       /\ UNCHANGED << exlock, mgmt, eid, maxw, used, starting, timeouts, got, 
-                      done, crashes, sawBroken, k >>
+                      done, crashes, watched, sawBroken, k >>
 
 mcb == /\ pc["M"] = "mcb"
        /\ exlock = "free"
@@ -507,7 +555,7 @@ mcb == /\ pc["M"] = "mcb"
        /\ UNCHANGED << mgmt, eid, maxw, procs, alive, announced, used, pending, 
                        sentinels, shutdownF, mgr, callbacks, starting, 
                        timeouts, got, done, hit, gracePassed, broken, crashes, 
-                       sawBroken, k >>
+                       watched, wake, sawBroken, k >>
 
 mcb2 == /\ pc["M"] = "mcb2"
         /\ IF ~shutdownF /\ ~broken
@@ -519,7 +567,7 @@ mcb2 == /\ pc["M"] = "mcb2"
         /\ UNCHANGED << mgmt, eid, maxw, procs, alive, announced, used, 
                         sentinels, shutdownF, mgr, callbacks, starting, 
                         timeouts, got, done, hit, gracePassed, broken, crashes, 
-                        sawBroken, k >>
+                        watched, wake, sawBroken, k >>
 
 mresp == /\ pc["M"] = "mresp"
          /\ IF pending > 0 /\ Cardinality(procs) < maxw /\ ~shutdownF
@@ -531,7 +579,7 @@ mresp == /\ pc["M"] = "mresp"
          /\ UNCHANGED << exlock, eid, maxw, procs, alive, announced, used, 
                          pending, sentinels, shutdownF, mgr, callbacks, 
                          starting, timeouts, got, done, hit, gracePassed, 
-                         broken, crashes, sawBroken, k >>
+                         broken, crashes, watched, wake, sawBroken, k >>
 
 mresp2 == /\ pc["M"] = "mresp2"
           /\ IF NeedSpawn
@@ -546,8 +594,8 @@ mresp2 == /\ pc["M"] = "mresp2"
                      /\ UNCHANGED << procs, alive, used >>
           /\ UNCHANGED << exlock, eid, maxw, announced, pending, sentinels, 
                           shutdownF, mgr, callbacks, starting, timeouts, got, 
-                          done, hit, gracePassed, broken, crashes, sawBroken, 
-                          k >>
+                          done, hit, gracePassed, broken, crashes, watched, 
+                          wake, sawBroken, k >>
 
 mfin == /\ pc["M"] = "mfin"
         /\ mgmt = "free"
@@ -556,7 +604,7 @@ mfin == /\ pc["M"] = "mfin"
         /\ UNCHANGED << exlock, eid, maxw, procs, alive, announced, used, 
                         pending, sentinels, shutdownF, mgr, callbacks, 
                         starting, timeouts, got, done, hit, gracePassed, 
-                        broken, crashes, sawBroken, k >>
+                        broken, crashes, watched, wake, sawBroken, k >>
 
 mjoin == /\ pc["M"] = "mjoin"
          /\ IF procs # {}
@@ -571,10 +619,10 @@ mjoin == /\ pc["M"] = "mjoin"
                     /\ procs' = procs
          /\ UNCHANGED << exlock, eid, maxw, alive, announced, used, pending, 
                          sentinels, shutdownF, callbacks, starting, timeouts, 
-                         got, done, hit, gracePassed, broken, crashes, 
-                         sawBroken, k >>
+                         got, done, hit, gracePassed, broken, crashes, watched, 
+                         wake, sawBroken, k >>
 
-manager == m0 \/ mcb \/ mcb2 \/ mresp \/ mresp2 \/ mfin \/ mjoin
+manager == m0 \/ mw \/ mcb \/ mcb2 \/ mresp \/ mresp2 \/ mfin \/ mjoin
 
 e0 == /\ pc["E"] = "e0"
       /\ IF crashes < MaxCrash
@@ -586,7 +634,8 @@ e0 == /\ pc["E"] = "e0"
                  /\ UNCHANGED << alive, crashes >>
       /\ UNCHANGED << exlock, mgmt, eid, maxw, procs, announced, used, pending, 
                       sentinels, shutdownF, mgr, callbacks, starting, timeouts, 
-                      got, done, hit, gracePassed, broken, sawBroken, k >>
+                      got, done, hit, gracePassed, broken, watched, wake, 
+                      sawBroken, k >>
 
 env == e0
 
@@ -610,7 +659,7 @@ w0(self) == /\ pc[self] = "w0"
             /\ pc' = [pc EXCEPT ![self] = "w0"]
             /\ UNCHANGED << exlock, mgmt, eid, maxw, procs, used, pending, 
                             shutdownF, mgr, callbacks, starting, got, done, 
-                            hit, broken, crashes, sawBroken, k >>
+                            hit, broken, crashes, watched, wake, sawBroken, k >>
 
 worker(self) == w0(self)
 
